@@ -4,23 +4,27 @@
    The inline phase of one leaf is total under the premises of Props/Inlines.v inlines_total; for a whole tree this is
    inline_phase_total_given_leaves (every leaf, after the right-trim run_inlines_gen does: empty, or NUL-free, valid UTF-8,
    first line not blank, line_endings < |line_offsets|).  Here those clauses are PROVED of the tree parse_blocks answers,
-   as an invariant carried along the Ok path of every function of the block phase (Proofs/LeafPremBytes.v, LeafPremRow.v,
-   LeafPremWalk.v, LeafPremMain.v), for EVERY input and option set (no premise `utf8_valid x`, `has_nul x = false`: on the
-   Ok path every from_utf8 of the block phase succeeded; feed replaces NUL) — except the clause `first line not blank`
-   for Paragraph / Heading leaves, which stays the premise of Parse_inline_phase_total_partial:
+   each as an invariant carried along the Ok path of every function of the block phase, for EVERY input and EVERY option
+   set.  There is no premise `utf8_valid x` / `has_nul x = false`: on the Ok path every from_utf8 of the block phase
+   succeeded (a line suffix that is not valid UTF-8 is a Panic of parse_blocks), and feed replaces NUL.
 
-     Parse_leaf_clauses                    NUL-free, valid UTF-8, line_endings c < |bi_lo| (or c = []) for every leaf
-     Parse_inline_phase_total_partial      if no Paragraph / Heading leaf starts with a blank line, the inline phase is total
-                                           (a TableCell never does: Proofs/LeafPremCells.v)
-     Parse_document_inline_phase_partial   and parse_document_model = the text post-pass of its (footnote-processed) result
+     clause                              invariant (per node)                                      files (coq/Proofs)
+     NUL-free, no CR, valid UTF-8,       LeafPremBytes.LP, for Paragraph / Heading / TableCell      LeafPremBytes, LeafPremRow,
+       #LF(rtrim c) < |line_offsets|                                                                LeafPremWalk, LeafPremMain
+     first line not blank, TableCell     no CR / LF in a cell (ParseCellsWalk)                      LeafPremCells
+     first line not blank, Paragraph /   every line of the content is non-blank (LeafPremBlank.ALS) LeafPremBlank (resolve_refdefs stops at
+       Heading                                                                                      a line start), LeafPremPct + LeafPremCur
+                                                                                                    (cursor: add_line appends a non-blank
+                                                                                                    suffix), LeafPremPreface (table preface),
+                                                                                                    LeafPremFirst, LeafPremFirstMain
 
-   Parse_inline_phase_total_full_statement (no premise on the leaves) is NOT proved: it needs the cursor invariant of
-   add_text_to_container (the suffix add_line appends to a fresh Paragraph / ATX Heading starts at first_nonspace of a
-   line that is not blank; a setext heading / finalized paragraph keeps has_content = !is_blank).  tools/leaf_premises.py
-   found the clause true on 35,681 leaves of the compiled parser. *)
+   Consequently parse_document_model o u x is, whenever parse_blocks answers Ok, the text post-pass
+   (postprocess_text_nodes + task lists) applied to a tree the inline phase and the footnote pass DID produce:
+   the remaining panic sites of the whole parser model are those of parse_blocks (Props/Blocks.v: 22 named sites) and of
+   post_phase. *)
 From Coq Require Import List NArith Arith Bool Strings.String.
 From V Require Import Base.Bytes Base.Res Model.Ast Model.Strings Model.Blocks Model.Inlines Model.Parse Proofs.InlinesTotal2
-  Proofs.LeafPremMain Proofs.LeafPremCells Proofs.LeafPremFirstMain.
+  Proofs.LeafPremFirstMain.
 From V Require Spec.EscapeSpec.
 Import ListNotations.
 Local Open Scope string_scope.
@@ -30,48 +34,29 @@ Definition Parse_inline_phase_total_full_statement : Prop :=
   forall o u x r, parse_blocks (bopts_of o u) x = Ok r ->
     exists t, inline_phase o u (br_root r) (br_refmap r) (br_max_ref_size r) = Ok t.
 
-Theorem Parse_leaf_clauses : forall o x r p i,
+(* every leaf (Paragraph, Heading, TableCell) of the block-phase tree meets the premises of inlines_total *)
+Theorem Parse_leaf_premises : forall o x r p i,
   parse_blocks o x = Ok r -> In (p, i) (bleaves [] (br_root r)) ->
   let c := rtrim_slice (bi_content i) in
-  c = [] \/ (has_nul c = false /\ Spec.EscapeSpec.utf8_valid c = true /\ line_endings c < List.length (bi_lo i)).
-Proof. exact parse_blocks_leaf_clauses. Qed.
-Print Assumptions Parse_leaf_clauses.
+  c = [] \/ (has_nul c = false /\ Spec.EscapeSpec.utf8_valid c = true /\ first_line_not_blank c = true
+             /\ line_endings c < List.length (bi_lo i)).
+Proof. exact parse_blocks_leaf_ok. Qed.
+Print Assumptions Parse_leaf_premises.
 
-Theorem Parse_inline_phase_total_partial : forall o u x r,
-  parse_blocks (bopts_of o u) x = Ok r ->
-  (forall p i, In (p, i) (bleaves [] (br_root r)) -> bi_val i <> TableCell ->
-     rtrim_slice (bi_content i) = [] \/ first_line_not_blank (rtrim_slice (bi_content i)) = true) ->
-  exists t, inline_phase o u (br_root r) (br_refmap r) (br_max_ref_size r) = Ok t.
-Proof. exact inline_phase_total_blocks2. Qed.
-Print Assumptions Parse_inline_phase_total_partial.
+Theorem Parse_inline_phase_total : Parse_inline_phase_total_full_statement.
+Proof. exact inline_phase_total_after_blocks. Qed.
+Print Assumptions Parse_inline_phase_total.
 
-Theorem Parse_document_inline_phase_partial : forall o u x r,
+Theorem Parse_document_after_blocks : forall o u x r,
   parse_blocks (bopts_of o u) x = Ok r ->
-  (forall p i, In (p, i) (bleaves [] (br_root r)) ->
-     rtrim_slice (bi_content i) = [] \/ first_line_not_blank (rtrim_slice (bi_content i)) = true) ->
   exists t1, inline_phase o u (br_root r) (br_refmap r) (br_max_ref_size r) = Ok t1 /\
              parse_document_model o u x = post_phase o (footnote_phase o u t1).
-Proof. exact parse_document_inline_phase. Qed.
-Print Assumptions Parse_document_inline_phase_partial.
-
-(* without tables: every premise of the inline phase is established by the block phase (Proofs/LeafPremBlank.v,
-   LeafPremPct.v, LeafPremCur.v, LeafPremFirst.v: no Paragraph / Heading starts with a blank line) *)
-Theorem Parse_inline_phase_total_no_tables : forall o u x r,
-  po_table o = false -> parse_blocks (bopts_of o u) x = Ok r ->
-  exists t, inline_phase o u (br_root r) (br_refmap r) (br_max_ref_size r) = Ok t.
-Proof. exact inline_phase_total_no_tables. Qed.
-Print Assumptions Parse_inline_phase_total_no_tables.
-
-Theorem Parse_document_no_tables : forall o u x r,
-  po_table o = false -> parse_blocks (bopts_of o u) x = Ok r ->
-  exists t1, inline_phase o u (br_root r) (br_refmap r) (br_max_ref_size r) = Ok t1 /\
-             parse_document_model o u x = post_phase o (footnote_phase o u t1).
-Proof. exact parse_document_no_tables. Qed.
-Print Assumptions Parse_document_no_tables.
+Proof. exact parse_document_after_blocks. Qed.
+Print Assumptions Parse_document_after_blocks.
 
 (* non-vacuity: a document with a preface paragraph, a table (header and body cells, one filler cell), an ATX heading with
    closing hashes, an empty ATX heading, a setext heading after a stripped reference definition, a non-ASCII paragraph
-   and a NUL: the block phase answers Ok, 11 leaves, the premise holds, the inline phase answers Ok *)
+   and a NUL: the block phase answers Ok, 11 leaves, the inline phase answers Ok *)
 Definition ex_o : popts :=
   mkPO true true true true true true false false None None
        true true false false false false false false false true false false false false false.
@@ -88,13 +73,7 @@ Example Parse_total_example :
   | _ => False
   end.
 Proof.
-  assert (K : exists r, parse_blocks (bopts_of ex_o ex_u) ex_doc = Ok r
-                        /\ List.length (bleaves [] (br_root r)) = 11
-                        /\ forallb (fun e => match rtrim_slice (bi_content (snd e)) with [] => true | c => first_line_not_blank c end)
-                                   (bleaves [] (br_root r)) = true).
-  { vm_compute. eexists. split; [reflexivity|]. vm_compute. split; reflexivity. }
-  destruct K as (r & E & N & F). rewrite E. split; [exact N|].
-  eapply Parse_inline_phase_total_partial; [exact E|]. intros p i Hin _.
-  rewrite forallb_forall in F. specialize (F (p, i) Hin). cbn [snd] in F.
-  destruct (rtrim_slice (bi_content i)); [left; reflexivity | right; exact F].
+  assert (K : exists r, parse_blocks (bopts_of ex_o ex_u) ex_doc = Ok r /\ List.length (bleaves [] (br_root r)) = 11).
+  { vm_compute. eexists. split; [reflexivity|]. vm_compute. reflexivity. }
+  destruct K as (r & E & N). rewrite E. split; [exact N|]. exact (Parse_inline_phase_total _ _ _ _ E).
 Qed.
